@@ -657,6 +657,10 @@ func (s *Store) GetFunctionTypeID(t *FunctionType) (FunctionTypeID, error) {
 		if id, ok = s.typeIDs[key]; ok {
 			return id, nil
 		}
+		if s.typeIDs == nil {
+			// CloseWithExitCode released the map, e.g. concurrently with a compilation.
+			return 0, errors.New("store is closed")
+		}
 		l := len(s.typeIDs)
 		if uint32(l) >= s.functionMaxTypes {
 			return 0, fmt.Errorf("too many function types in a store")
